@@ -775,11 +775,11 @@ pub enum ExtendedProtocolData {
     },
     Bind {
         data: BytesMut,
-        metadata: Option<String>,
+        metadata: Option<(String, Arc<Parse>, u64)>,
     },
     Describe {
         data: BytesMut,
-        metadata: Option<String>,
+        metadata: Option<(String, Arc<Parse>, u64)>,
     },
     Execute {
         data: BytesMut,
@@ -795,11 +795,16 @@ impl ExtendedProtocolData {
         Self::Parse { data, metadata }
     }
 
-    pub fn create_new_bind(data: BytesMut, metadata: Option<String>) -> Self {
+    /// `metadata`: the client's statement name and the statement it named
+    /// when the message arrived.
+    pub fn create_new_bind(data: BytesMut, metadata: Option<(String, Arc<Parse>, u64)>) -> Self {
         Self::Bind { data, metadata }
     }
 
-    pub fn create_new_describe(data: BytesMut, metadata: Option<String>) -> Self {
+    pub fn create_new_describe(
+        data: BytesMut,
+        metadata: Option<(String, Arc<Parse>, u64)>,
+    ) -> Self {
         Self::Describe { data, metadata }
     }
 
